@@ -14,8 +14,8 @@ VERIF = os.path.dirname(os.path.dirname(os.path.abspath(__file__)))
 REPO = os.environ.get("VERIF_REPO", "/repo")
 COQ = os.path.join(VERIF, "coq")
 RUNNER_BIN = os.path.join(VERIF, "runner", "bin")
-EVIDENCE = os.path.join(VERIF, "evidence")
-REPLAYS = os.path.join(VERIF, "replays")
+EVIDENCE = os.environ.get("VERIF_EVIDENCE_DIR", os.path.join(VERIF, "evidence"))
+REPLAYS = os.environ.get("VERIF_REPLAYS_DIR", os.path.join(VERIF, "replays"))
 HOOK_ENV = "DISCOPY_VERIF"
 
 
@@ -390,3 +390,98 @@ def proof_stage(report, prop_file):
         tail = "\n".join(res["log"].splitlines()[-25:])
         report.notes.append("proof stage failed: " + "; ".join(res["bad_axioms"] + res["audit"]) + "\n" + tail)
     return res["ok"]
+
+
+# ------------------------------------------------------------------ in-Coq evaluation (cross-check of extraction)
+def to_coq_sexp(x):
+    if isinstance(x, bool):
+        x = int(x)
+    if isinstance(x, int):
+        return "I (%d)" % x
+    return "L [" + "; ".join(to_coq_sexp(y) for y in x) + "]"
+
+
+_CTOK = re.compile(r"\[|\]|;|\(|\)|-?\d+|[A-Za-z_%]+")
+
+
+def parse_coq_sexps(text):
+    """Parse the printed value of `list sexp` (constructors I, L) back to nested lists."""
+    toks = [t for t in _CTOK.findall(text) if t not in ("%Z", "Z")]
+    pos = [0]
+
+    def item():
+        t = toks[pos[0]]
+        if t == "(":
+            pos[0] += 1
+            v = item()
+            assert toks[pos[0]] == ")", toks[pos[0]]
+            pos[0] += 1
+            return v
+        if t == "I":
+            pos[0] += 1
+            return item()
+        if t == "L":
+            pos[0] += 1
+            return lst()
+        if re.fullmatch(r"-?\d+", t):
+            pos[0] += 1
+            return int(t)
+        if t.endswith("%Z") and re.fullmatch(r"-?\d+", t[:-2]):
+            pos[0] += 1
+            return int(t[:-2])
+        raise ValueError("unexpected token %r" % t)
+
+    def lst():
+        assert toks[pos[0]] == "[", toks[pos[0]]
+        pos[0] += 1
+        out = []
+        while toks[pos[0]] != "]":
+            out.append(item())
+            if toks[pos[0]] == ";":
+                pos[0] += 1
+        pos[0] += 1
+        return out
+    return lst()
+
+
+def coq_eval(requires, entry, programs, tag="xcheck"):
+    """Evaluate `entry` (a Gallina function sexp -> sexp) on programs INSIDE coqc with
+    vm_compute and return the answers; used to cross-check the extracted runner."""
+    import tempfile
+    d = tempfile.mkdtemp(prefix="dv_%s_" % tag, dir=os.path.join(VERIF, "runner", "gen"))
+    try:
+        src = ["From Coq Require Import List ZArith.", "Import ListNotations.",
+               "Require Import %s." % " ".join(requires), "Open Scope Z_scope.",
+               "Definition cases : list sexp := ["]
+        src.append(";\n".join(to_coq_sexp(p) for p in programs))
+        src.append("].")
+        src.append("Eval vm_compute in (map %s cases)." % entry)
+        path = os.path.join(d, "cases.v")
+        with open(path, "w") as fh:
+            fh.write("\n".join(src))
+        out = subprocess.run(
+            ["/bin/sh", "-c", "ulimit -s unlimited 2>/dev/null; exec timeout 1200 coqc -Q %s DV %s" % (COQ, path)],
+            stdout=subprocess.PIPE, stderr=subprocess.PIPE, cwd=d)
+        if out.returncode != 0:
+            raise RuntimeError("coqc failed on generated cases: " + out.stderr.decode()[-600:])
+        text = out.stdout.decode()
+        body = text[text.index("=") + 1:text.rindex(": list sexp")]
+        return parse_coq_sexps(body)
+    finally:
+        import shutil
+        shutil.rmtree(d, ignore_errors=True)
+
+
+def cross_check_extraction(report, name, requires, entry, programs, rng, n=200):
+    """Thorough tier: the same programs through vm_compute in coqc and through the
+    extracted OCaml runner must give identical answers."""
+    sample = programs if len(programs) <= n else rng.sample(programs, n)
+    a = coq_eval(requires, entry, sample, tag=name)
+    b = run_model(name, sample)
+    bad = [(p, x, y) for p, x, y in zip(sample, a, b) if freeze(x) != freeze(y)]
+    report.extra["extraction_cross_check"] = {"programs": len(sample), "differences": len(bad)}
+    if bad:
+        report.violation(
+            "extracted runner %s and vm_compute disagree on %d program(s): extraction or driver bug" % (name, len(bad)),
+            {"broken": "extraction:%s" % name, "first": {"program": bad[0][0], "coq": bad[0][1], "ocaml": bad[0][2]}},
+            found_input=False)
